@@ -257,6 +257,38 @@ def concrete_roundtrips(repo, seed, n):
         g = nastran.rdgrids(f)
         if g is None or g[:, 0].tolist() != [float(x) for x in gids] or not np.allclose(g[:, 2:5], xyz, rtol=1e-6, atol=1e-7):
             return ev, dict(pair="wtgrids/rdgrids", ids=gids, xyz=xyz.tolist(), got=None if g is None else g.tolist())
+        # USET -> bulk (CORD2* + GRID) -> USET, through a chain of cylindrical / spherical / rectangular systems; CORD2x cards alone
+        if it % 3 == 0:
+            from pyyeti.nastran import n2p
+            cyl = np.array([[10, 2, 0], [1.0, 2.0, 0.5], [1.3, 2.8, 1.9], [2.5, 2.2, 0.1]]) + np.vstack((np.zeros(3), rng.randn(3, 3) * 0.2))
+            sph = np.array([[20, 3, 10], [2.0, 35.0, 1.0], [2.5, 80.0, 2.0], [3.0, 120.0, -0.5]])
+            rec = np.array([[30, 1, 20], [1.5, 40.0, 60.0], [2.5, 70.0, 100.0], [2.0, 110.0, 200.0]])
+            cref = {}
+            uu = None
+            gid0 = 1000
+            pts = []
+            for cs_, nloc in ((0, 2), (cyl, 2), (sph, 2), (rec, 1)):
+                for q in range(nloc):
+                    gid0 += 1
+                    a = rng.randn(3) * 2 if np.size(cs_) == 1 or cs_[0, 1] == 1 else np.array([rng.uniform(0.5, 3), rng.uniform(10, 170), rng.uniform(-170, 170)])
+                    uu = n2p.addgrid(uu, gid0, "b", cs_, a, cs_ if q == 0 else 0, cref)
+            f = io.StringIO()
+            try:
+                nastran.uset2bulk(f, uu); f.seek(0); ev += 1
+                uu2 = nastran.bulk2uset(f)[0]
+            except Exception as ex:
+                return ev, dict(pair="uset2bulk/bulk2uset", what="exception %r" % (ex,))
+            ok = uu2.shape == uu.shape and list(uu2.index) == list(uu.index) and np.allclose(uu2.values[:, 1:].astype(float), uu.values[:, 1:].astype(float), rtol=1e-6, atol=1e-6)
+            if not ok:
+                return ev, dict(pair="uset2bulk/bulk2uset", what="USET table written to bulk and read back differs (ids, locations, coordinate systems)",
+                                max_diff=float(abs(uu2.values[:, 1:].astype(float) - uu.values[:, 1:].astype(float)).max()) if uu2.shape == uu.shape else None)
+            ci = n2p.mkcordcardinfo(uu)
+            f = io.StringIO()
+            nastran.wtcoordcards(f, ci); f.seek(0); ev += 1
+            cr2 = nastran.rdcord2cards(f)          # returns the resolved systems {id: 5x3 coordinate info}
+            for cid in (10, 20, 30):
+                if cid not in cr2 or not np.allclose(np.asarray(cr2[cid], float), np.asarray(cref[cid], float), rtol=1e-6, atol=1e-6):
+                    return ev, dict(pair="wtcoordcards/rdcord2cards", what="coordinate system %d written as CORD2 card and read back resolves to a different origin/orientation" % cid)
         # GRID option combinations: cp / cd scalar or vector, ps and seid blank or given (all four combinations), small and large field forms
         for cpv in (0, [int(x) for x in rng.randint(0, 50, ng)]):
             for cdv in (0, [int(x) for x in rng.randint(0, 50, ng)]):
